@@ -101,6 +101,20 @@ def _publish(ck, p):
             ig = [(bi, t) for bi, t in f.calls() if bi in arm and inst_of(t).endswith("document_state::{impl}::ignore_lint")]
             pubs = [bi for bi, t in f.calls() if bi in arm and inst_of(t) == B0 + "publish_diagnostics" and awaited(f, bi)]
             ok = len(ig) == 1 and bool(pubs) and cfg.every_path_passes(ig[0][0], pubs)[0]
+            if not ig:
+                # the arm's body extracted into an awaited async helper (new since the reference tree)
+                from ..common import new_async_helper
+                for hb, ht in f.calls():
+                    if hb not in arm or not awaited(f, hb):
+                        continue
+                    body = new_async_helper(p, ht)
+                    if body is None:
+                        continue
+                    bcfg = Cfg(body)
+                    big = [(b2, t2) for b2, t2 in body.calls() if inst_of(t2).endswith("document_state::{impl}::ignore_lint")]
+                    bpubs = [b2 for b2, t2 in body.calls() if inst_of(t2) == B0 + "publish_diagnostics" and awaited(body, b2)]
+                    if len(big) == 1 and bpubs and bcfg.every_path_passes(big[0][0], bpubs)[0]:
+                        ok = True
             n += 1
             ck.decide(rule, "execute_command:HarperIgnoreLint", ok, f.span, "ignore_lint is followed on every path by publish_diagnostics: %s" % ok)
         else:
@@ -195,6 +209,9 @@ def _publish(ck, p):
             agg = _params_agg(f, pv, snd[0][1]["args"][1])
             polls = awaited(f, gen[0][0])
             ok = agg is not None and any(o[0] == "call" and o[1] in polls for o in arg_roots(f, pv, dict(zip(agg["fields"], agg["ops"]))["diagnostics"]))
+        elif len(gen) == 1 and not snd:
+            # the notification is sent by an awaited helper that is handed the generated diagnostics
+            ok = _helper_send_of(p, f, gen[0][0]) is not None
         gpv = Prov(g)
         lock = [(bi, t) for bi, t in g.calls() if inst_of(t).endswith("mutex::{impl}::lock") and "doc_state" in arg_fields(gpv, t["args"][0])]
         gd = [(bi, t) for bi, t in g.calls() if inst_of(t).endswith("document_state::{impl}::generate_diagnostics")]
@@ -280,7 +297,40 @@ def _helper_empty_sends(p, f):
             from_url = "url" in arg_fields(bpv, fields["uri"]) or "url" in names or any("url" in str(o) for o in uri_roots)
             if empty and from_url and len(t["args"]) >= 2:
                 out.append((bi, t, t["args"][1]))
+                continue
+            # a general "send these diagnostics for this url" helper: both come in as parameters; what is sent is
+            # decided at the call site
+            if from_url and not empty:
+                fpv = Prov(f)
+                diag_args = [a for a in t["args"] if place_of(a) and "Diagnostic" in (f.local_tystr(place_of(a)[0]) or "") and "Vec<" in (f.local_tystr(place_of(a)[0]) or "")]
+                url_args = [a for a in t["args"][1:] if place_of(a) and "Url" in (f.local_tystr(place_of(a)[0]) or "")]
+                if len(diag_args) == 1 and url_args:
+                    org = flatten(fpv.trace_operand(diag_args[0]))
+                    empty_here = bool(org) and all(o[0] == "call" and last(norm(o[3] or "")) in ("new", "from_elem") or o[0] == "const" for o in org)
+                    if empty_here:
+                        out.append((bi, t, url_args[0]))
     return out
+
+
+def _helper_send_of(p, f, gen_bb):
+    """an awaited call in f to a new async helper that sends PublishDiagnostics, whose Vec<Diagnostic> argument derives
+    from the awaited call at block gen_bb: (block, call) or None"""
+    from .. import inline
+    known = inline.load_known() or set()
+    fpv = Prov(f)
+    polls = awaited(f, gen_bb)
+    for bi, t in f.calls():
+        inst = inst_of(t)
+        body = p.fns.get((t["f"].get("inst") or "") + "::{closure#0}")
+        if body is None or norm(inst) in known or not inst.startswith("harper_ls::") or not awaited(f, bi):
+            continue
+        if not any(inst_of(st).endswith("client::{impl}::send_notification") for _, st in body.calls()):
+            continue
+        for a in t["args"]:
+            if place_of(a) and "Diagnostic" in (f.local_tystr(place_of(a)[0]) or ""):
+                if any(o[0] == "call" and (o[1] in polls or o[1] == gen_bb) for o in arg_roots(f, fpv, a)):
+                    return (bi, t)
+    return None
 
 
 def _watched_files(p, f, cfg, pv, sends, hsends=()):
